@@ -375,7 +375,6 @@ impl super::DebugSession {
 
         let stop = dbg.start_debugee_with_reason().context("start debugee")?;
         self.send_success(req)?;
-        self.emit_stop_reason(stop)?;
-        Ok(())
+        self.emit_stop_reason_answered(Ok(stop))
     }
 }
